@@ -19,27 +19,39 @@ if [ "$MODE" = overlay ]; then
   # instrumented build: sync->vsync shim, tracked spawns, bbolt storage-write fault points; generated from
   # the current tree on every invocation, nothing in /repo is touched
   BIN="$ROOT/.build/vcheck-i"
-  OVDIR="$ROOT/.build/overlay"
+  OVDIR="$ROOT/.build/overlay-$$"
   rm -rf "$OVDIR"; mkdir -p "$OVDIR"
+  trap 'rm -rf "$OVDIR"' EXIT
   BBOLT="$(go list -m -f '{{.Dir}}' go.etcd.io/bbolt 2>/dev/null)"
   if ! go run ./tools/mkoverlay -repo /repo -out "$OVDIR" -bbolt "$BBOLT" > "$ROOT/.build/mkoverlay.log" 2>&1; then
     cat "$ROOT/.build/mkoverlay.log"
     echo "ERROR: overlay generation failed (harness problem, not a verdict)"; exit 2
   fi
-  if ! GODEBUG=goindex=0 go build -overlay "$OVDIR/overlay.json" -o "$BIN" ./cmd/vcheck 2> "$ROOT/.build/build.log"; then
+  if ! GODEBUG=goindex=0 go build -overlay "$OVDIR/overlay.json" -o "$BIN.$$" ./cmd/vcheck 2> "$ROOT/.build/build.log"; then
     cat "$ROOT/.build/build.log"; echo "ERROR: build failed"; exit 2
   fi
+  mv -f "$BIN.$$" "$BIN"
 else
-  if ! go build -o "$BIN" ./cmd/vcheck 2> "$ROOT/.build/build.log"; then
+  if ! go build -o "$BIN.$$" ./cmd/vcheck 2> "$ROOT/.build/build.log"; then
     cat "$ROOT/.build/build.log"; echo "ERROR: build failed"; exit 2
   fi
+  mv -f "$BIN.$$" "$BIN"
 fi
 if [ "$ID" = C18 ]; then
   # the data-race clause is decided by a free-running -race build of the same bodies
-  if ! go build -race -o "$ROOT/.build/vcheck-race" ./cmd/vcheck 2> "$ROOT/.build/build-race.log"; then
+  if ! go build -race -o "$ROOT/.build/vcheck-race.$$" ./cmd/vcheck 2> "$ROOT/.build/build-race.log"; then
     cat "$ROOT/.build/build-race.log"; echo "ERROR: -race build failed"; exit 2
   fi
+  mv -f "$ROOT/.build/vcheck-race.$$" "$ROOT/.build/vcheck-race"
   export VERIF_RACE_BIN="$ROOT/.build/vcheck-race"
 fi
 cd "$ROOT"
-exec "$BIN" -prop "$ID" -tier "$TIER"
+# hard deadline: a check that does not finish is inconclusive (exit 2), never a verdict
+LIMIT=3600; [ "$TIER" = quick ] || LIMIT=28800
+timeout -k 30 "$LIMIT" "$BIN" -prop "$ID" -tier "$TIER"
+RC=$?
+if [ $RC = 124 ] || [ $RC = 137 ]; then
+  echo "INCONCLUSIVE: check $ID $TIER did not finish within ${LIMIT}s (blocked outside the scheduler?) - no verdict"
+  exit 2
+fi
+exit $RC
